@@ -190,6 +190,13 @@ def scenario(params, ch):
                 do_send()
             else:
                 later.setdefault(at, []).append(do_send)
+        if "overtake" in opts:
+            # the datagram with the measured messages goes out (its fate is a choice: delayed, lost and resent ...), then
+            # 300 tiny messages (two datagrams) overtake it: it arrives more than a message window (256) late while
+            # its datagram is still well inside the 32-datagram window
+            w.tick()
+            for j in range(300):
+                app_send(w, mon, sender, b"f" + struct.pack(">H", j), "none")
         tick0 = w.tickno
 
         def run_window(n):
@@ -292,6 +299,9 @@ def params_list(tier):
         for msgs in ((("small", "retry"), ("small", "none")), (("frag2", "retry"),), (("small", "best"),), (("frag2", "none"),)):
             out.append((direction, msgs, None, 0, "cs|wrap", 1))
             out.append((direction, msgs, ("s2c" if direction == "c2s" else "c2s", 0, 70), 0, "cs|wrap", 1))
+        # overtaken by more than a message window of newer messages
+        for msgs in ((("small", "none"),), (("small", "retry"),), (("small", "best"),), (("small", "retry"), ("small", "none")), (("frag2", "retry"),)):
+            out.append((direction, msgs, None, 0, "cs|overtake", 1))
         # a second message queued exactly when the resend of the first is due, acks late
         for at in ((7,) if tier == "quick" else (6, 7, 8, 13)):
             ack_dir0 = "s2c" if direction == "c2s" else "c2s"
@@ -302,6 +312,8 @@ def params_list(tier):
         # frame 1/50 s > send_interval: one datagram per tick, 45 outstanding within 0.9 s < timeout
         for n, bl in ((45, 38), (45, 0), (48, 44)) if tier == "thorough" else ((45, 38),):
             out.append((direction, (("stream", n, "none", 0.02),), (ack_dir, 0, bl) if bl else None, 0, "cs", 1))
+        # the same stream across the wrap of the datagram numbers (the preset leaves them at 65530), acks flowing
+        out.append((direction, (("stream", 16, "none", 0.02),), None, 0, "cs|wrap", 1))
         for msgs in msg_sets:
             for b in blackouts:
                 if b is not None:
